@@ -36,13 +36,20 @@ type c16Case struct {
 	Choices  []int  `json:"choices,omitempty"`
 }
 
-var c16ThreadScenarios = []string{"goast.New+guess", "goast.WithResolver(simple)+simple", "goast.New+guess.WithMap", "unshared"}
+// "+vendored": the threads' files import packages through vendored paths (the decorator strips the
+// vendor prefix of every resolved path: code that only runs for such paths)
+var c16ThreadScenarios = []string{"goast.New+guess", "goast.WithResolver(simple)+simple", "goast.New+guess.WithMap", "unshared", "unshared+vendored", "goast.New+guess+vendored"}
 
 // the first two files bind the same local name (x) to different paths: a resolver that mixes up the
 // per-file import tables of concurrently decorated files is caught by the sequential-result oracle
 var c16ThreadFiles = []string{"@xa", "@xb", "multiblock", "typepos", "call", "commented"}
 
+var c16VendoredFiles = []string{"@va", "@vb", "@vc"}
+
 var c16Inline = map[string]string{
+	"@va": "package a\n\nimport \"root/vendor/a.b/x\"\n\nvar v = x.T{F: x.K}\n",
+	"@vb": "package a\n\nimport (\n\t\"fmt\"\n\n\t\"root/vendor/c.d/x\"\n)\n\nfunc f() {\n\tfmt.Println(x.V)\n}\n",
+	"@vc": "package a\n\nimport y \"vendor/e.f/y-go\"\n\nvar _ = y.F(y.V)\n",
 	"@xa": "package a\n\nimport (\n\t\"fmt\"\n\n\t\"a.b/x\"\n)\n\nfunc f() {\n\tfmt.Println(x.V, x.K)\n\tx.F()\n}\n",
 	"@xb": "package a\n\nimport \"c.d/x\"\n\nvar v = x.T{F: x.K}\n\nfunc g() x.T { return x.F(v) }\n",
 }
@@ -54,7 +61,7 @@ func init() {
 		Level: "model_checking",
 		Rule: "controlled scheduler on instrumented sources (sync primitives replaced, accesses to package-level variables and to resolver state hooked, every range-over-map under explorer control): " +
 			"2 (quick) / 3 (thorough) goroutines, each with its own Decorator and Restorer on a different file, sharing one goast resolver (lazily defaulted / WithResolver) and read-only package-name resolvers; all interleavings at the hooked operations with preemption bound 3; " +
-			"oracle per schedule: no access pair unordered by happens-before (vector clocks over lock release/acquire), no deadlock, no panic, every thread's tree and bytes equal its sequential result; " +
+			"every execution starts from the initial values of the library's package-level variables (registered by the instrumenter, restored before each run); oracle per schedule: no access pair unordered by happens-before (vector clocks over lock release/acquire), no deadlock, no panic, every thread's tree and bytes equal its sequential result; " +
 			"sequentially: 8 import-management / package scenarios x every single (thorough: pair of) non-default map iteration order at any range-over-map, and repetition: identical output; " +
 			"plus a free-running go build -race pass of the same thread bodies; state = distinct order of accesses to shared locations / distinct map-order vector; non-trivial = schedule with a preemption or non-default map order",
 		Assumptions: []string{"only hooked operations are scheduling points; races on other memory are left to the free-running -race pass", "RWMutex is modelled as an exclusive lock"},
@@ -156,7 +163,7 @@ func runC16(ctx *core.Ctx, unit int) {
 }
 
 func c16Resolvers(sc string) (shared func() resolver.DecoratorResolver, res resolver.RestorerResolver) {
-	switch sc {
+	switch strings.TrimSuffix(sc, "+vendored") {
 	case "goast.New+guess":
 		g := goast.New()
 		return func() resolver.DecoratorResolver { return g }, guess.New()
@@ -194,8 +201,11 @@ func c16Body(src string, dr resolver.DecoratorResolver, rr resolver.RestorerReso
 	}
 }
 
-func c16Src(i int) string {
+func c16Src(i int, sc string) string {
 	name := c16ThreadFiles[i%len(c16ThreadFiles)]
+	if strings.HasSuffix(sc, "+vendored") {
+		name = c16VendoredFiles[i%len(c16VendoredFiles)]
+	}
 	if s, ok := c16Inline[name]; ok {
 		return s
 	}
@@ -217,7 +227,8 @@ func c16Discover() {
 		mk, rr := c16Resolvers(sc)
 		for i := 0; i < 3; i++ {
 			var r c16Result
-			c16Body(c16Src(i), mk(), rr, &r)()
+			vsched.ResetGlobals()
+			c16Body(c16Src(i, sc), mk(), rr, &r)()
 		}
 	}
 	vsched.Discover = false
@@ -232,11 +243,12 @@ func c16Threads(cs c16Case, c *explore.Chooser) (core.Outcome, string) {
 	fail := func(key, f string, a ...interface{}) (core.Outcome, string) {
 		return core.Outcome{Key: key + ":" + cs.Scenario, Desc: fmt.Sprintf("scenario %s, %d threads, schedule %v\n", cs.Scenario, cs.Threads, c.Choices) + fmt.Sprintf(f, a...)}, ""
 	}
-	// sequential reference
+	// sequential reference, every body from the library's initial package-level state
 	mkRef, rrRef := c16Resolvers(cs.Scenario)
 	ref := make([]c16Result, cs.Threads)
 	for i := range ref {
-		c16Body(c16Src(i), mkRef(), rrRef, &ref[i])()
+		vsched.ResetGlobals()
+		c16Body(c16Src(i, cs.Scenario), mkRef(), rrRef, &ref[i])()
 		if ref[i].err != "" {
 			return fail("engine:reference", "%s", ref[i].err)
 		}
@@ -245,8 +257,9 @@ func c16Threads(cs c16Case, c *explore.Chooser) (core.Outcome, string) {
 	got := make([]c16Result, cs.Threads)
 	var bodies []func()
 	for i := range got {
-		bodies = append(bodies, c16Body(c16Src(i), mk(), rr, &got[i]))
+		bodies = append(bodies, c16Body(c16Src(i, cs.Scenario), mk(), rr, &got[i]))
 	}
+	vsched.ResetGlobals()
 	run := vsched.Go(func(n int, free bool) int {
 		if free {
 			return c.ChooseFree(n)
@@ -347,7 +360,7 @@ func c16MapBody(sc string) func() string {
 			return fmt.Sprint(o.OK, o.Key, o.Desc)
 		case "goast-roundtrip":
 			var r c16Result
-			c16Body(c16Src(0), goast.New(), guess.New(), &r)()
+			c16Body(c16Src(0, ""), goast.New(), guess.New(), &r)()
 			return r.tree + r.out + r.err
 		case "extras-bytes":
 			t, _ := gen.Find(gen.Templates(), "ranges")
@@ -407,8 +420,9 @@ func c16Restore(cs c07Case) string {
 
 func c16MapOrder(cs c16Case, c *explore.Chooser) core.Outcome {
 	body := c16MapBody(cs.Scenario)
+	vsched.ResetGlobals()
 	ref := body() // default (sorted) order, scheduler inactive
-	again := body()
+	again := body() // without a reset: state kept between calls must not show
 	fail := func(key, f string, a ...interface{}) core.Outcome {
 		return core.Outcome{Key: key + ":" + cs.Scenario, Desc: fmt.Sprintf("scenario %s, map-order choices %v\n", cs.Scenario, c.Choices) + fmt.Sprintf(f, a...)}
 	}
@@ -417,6 +431,7 @@ func c16MapOrder(cs c16Case, c *explore.Chooser) core.Outcome {
 	}
 	var got string
 	var pan string
+	vsched.ResetGlobals()
 	vsched.WithMapOrders(func(n int, free bool) int { return c.Choose(n) }, func() {
 		pan = guard(func() { got = body() })
 	})
@@ -458,14 +473,15 @@ func c16RacePass() core.Outcome {
 
 // C16RaceMain is the body of the race binary: the thread bodies, free-running on real goroutines.
 func C16RaceMain() int {
-	var srcs []string
-	for i := 0; i < 8; i++ {
-		srcs = append(srcs, c16Src(i))
-	}
 	_ = stdNames
 	for round := 0; round < 30; round++ {
 		for _, sc := range c16ThreadScenarios {
+			var srcs []string
+			for i := 0; i < 8; i++ {
+				srcs = append(srcs, c16Src(i, sc))
+			}
 			mk, rr := c16Resolvers(sc)
+			vsched.ResetGlobals() // no goroutine of the previous round is alive
 			done := make(chan c16Result, 8)
 			for i := 0; i < 8; i++ {
 				i := i
